@@ -48,6 +48,55 @@ type plainCurve struct{ elliptic.Curve }
 
 var wrappedP256 elliptic.Curve = plainCurve{elliptic.P256()}
 
+// The Curve field of a peer's *ecdsa.PublicKey struct is data the caller
+// fills in (for instance when the point was rebuilt from wire bytes by
+// generic code). Where the callee is documented to work on its own key's
+// curve, that field must not decide how the ephemeral scalar is sampled:
+// block length 32, range of the SM2 order, refused candidates replaced. X
+// and Y always hold a valid point of the SM2 curve.
+//
+//	0 the sm2.P256() singleton; 1 a distinct curve value with the same
+//	parameters (plainCurve around the singleton); 2 NIST P-256 (order above
+//	the SM2 order: n and n+1 would be accepted); 3 P-224 (28-byte scalars);
+//	4 P-384 (48-byte scalars); 5 nil.
+//
+// What the unchanged library does per entry point is asserted exactly:
+// RepondKeyExchange (and ConfirmResponder in the protocol histories) never
+// look at the field, so all six flavours must sample and fail identically.
+// sm2.Encrypt / EncryptASN1 / MarshalEnvelopedPrivateKey do take the curve of
+// the public key from the struct, legitimately (the key's curve defines the
+// group): flavours 0 and 1 describe the same group and must sample
+// identically; a struct whose point is not on its stated curve is an invalid
+// key and not this property's matter (flavours 2-5 are not generated there).
+var (
+	peerCurveNames                = []string{"sm2-singleton", "sm2-distinct-equal-value", "nist-p256", "p224", "p384", "nil"}
+	wrappedSM2     elliptic.Curve = plainCurve{sm2.P256()}
+)
+
+func peerCurve(i int) elliptic.Curve {
+	switch i {
+	case 1:
+		return wrappedSM2
+	case 2:
+		return elliptic.P256()
+	case 3:
+		return elliptic.P224()
+	case 4:
+		return elliptic.P384()
+	case 5:
+		return nil
+	}
+	return sm2.P256()
+}
+
+// peerStruct rebuilds a public key struct around the coordinates of k.
+func peerStruct(k *ecdsa.PublicKey, flavour int) *ecdsa.PublicKey {
+	if flavour == 0 {
+		return k
+	}
+	return &ecdsa.PublicKey{Curve: peerCurve(flavour), X: new(big.Int).Set(k.X), Y: new(big.Int).Set(k.Y)}
+}
+
 // nistPriv builds a key on NIST P-256; the public point comes from the Go
 // standard library, not from the code under test.
 func nistPriv(i int, wrapped bool) *sm2.PrivateKey {
@@ -238,11 +287,14 @@ func signOp(name string, curve *ref.Curve, ds []*big.Int, legacy bool) *opImpl {
 // 2 plain with compressed C1 and C1||C2||C3 order.
 func encryptOp(name string, curve *ref.Curve, ds []*big.Int, legacy bool, zeroK *big.Int) *opImpl {
 	o := &opImpl{name: name, n: curve.N, hi: sub1(curve.N), vars: 3, keys: len(ds), msgLen: []int{1, 2, 16, 33, 97}}
+	if !legacy {
+		o.peers = 2
+	}
 	pub := func(c *opCase) *ecdsa.PublicKey {
 		if legacy {
 			return &nistPriv(c.Key, c.Key%2 == 1).PublicKey // odd keys: as a user-defined curve
 		}
-		return &sm2Priv(c.Key).PublicKey
+		return peerStruct(&sm2Priv(c.Key).PublicKey, c.Peer)
 	}
 	msgOf := func(c *opCase) []byte { return gen.Fill(gen.Mix(c.Seed, 0x6d7367), c.MsgLen) }
 	o.special = func(c *opCase) []byte {
@@ -296,10 +348,10 @@ func encryptOp(name string, curve *ref.Curve, ds []*big.Int, legacy bool, zeroK 
 // the stream.
 func envelopeOp() *opImpl {
 	curve := ref.SM2
-	o := &opImpl{name: "sm2-enveloped-key", n: curve.N, hi: sub1(curve.N), pre: 16, vars: 1, keys: len(sm2D)}
+	o := &opImpl{name: "sm2-enveloped-key", n: curve.N, hi: sub1(curve.N), pre: 16, vars: 1, keys: len(sm2D), peers: 2}
 	inner := func(c *opCase) int { return (c.Key + 1) % len(sm2D) }
 	o.run = func(c *opCase, rd io.Reader) (out outcome, err error) {
-		der, err := sm2.MarshalEnvelopedPrivateKey(rd, &sm2Priv(c.Key).PublicKey, sm2Priv(inner(c)))
+		der, err := sm2.MarshalEnvelopedPrivateKey(rd, peerStruct(&sm2Priv(c.Key).PublicKey, c.Peer), sm2Priv(inner(c)))
 		if der != nil {
 			out.leak = "enveloped key"
 		}
@@ -415,6 +467,9 @@ func ecdhKeyGenOp() *opImpl {
 func sm2KexOp(name string, respond bool) *opImpl {
 	curve := ref.SM2
 	o := &opImpl{name: name, n: curve.N, hi: sub1(curve.N), vars: 2, keys: len(sm2D)}
+	if respond {
+		o.peers = len(peerCurveNames)
+	}
 	o.run = func(c *opCase, rd io.Reader) (out outcome, err error) {
 		self, peer := sm2Priv(c.Key), sm2Priv((c.Key+1)%len(sm2D))
 		ke := scoped(fmt.Sprint("sm2ke/", c.Key, c.Var, respond), func() *sm2.KeyExchange {
@@ -430,7 +485,7 @@ func sm2KexOp(name string, respond bool) *opImpl {
 		var R *ecdsa.PublicKey
 		var tag []byte
 		if respond {
-			rA := &sm2Priv((c.Key + 2) % len(sm2D)).PublicKey // any valid point serves as the initiator's R_A
+			rA := peerStruct(&sm2Priv((c.Key+2)%len(sm2D)).PublicKey, c.Peer) // any valid point serves as the initiator's R_A
 			R, tag, err = ke.RepondKeyExchange(rd, rA)
 		} else {
 			R, err = ke.InitKeyExchange(rd)
